@@ -49,6 +49,12 @@ def apply_edits(root, edits):
         r = subprocess.run(["patch", "-p1", "-s", "--no-backup-if-mismatch", "-i", edits["patch"]], cwd=root, stdout=subprocess.PIPE, stderr=subprocess.STDOUT, text=True)
         return None if r.returncode == 0 else "edit does not apply: patch %s: %s" % (edits["patch"], r.stdout[:200])
     for ed in edits:
+        if isinstance(ed, dict) and "patch" in ed:
+            # a patch first, textual edits on top of it: "this refactoring, with one thing broken"
+            err = apply_edits(root, ed)
+            if err:
+                return err
+            continue
         fn, old, new = ed[0], ed[1], ed[2]
         cnt = ed[3] if len(ed) > 3 else 1
         p = os.path.join(root, fn)
